@@ -92,6 +92,7 @@ def run(ctx):
     row_rule(ctx, syn)
     emptyrow_rule(ctx, syn)
     triple_rule(ctx, syn)
+    rangerec_rule(ctx, syn)
     exclusive_rule(ctx, syn)
     compress_rule(ctx, syn)
     expand_rule(ctx, syn)
@@ -1493,3 +1494,46 @@ def multiarms_rule(ctx, syn, rid="C01.MULTIARMS"):
             extra = sorted("%s%s" % x for x in got - want)
             ctx.report(r, label, "for a %s sub-selector of a complex target the multi-target block of inserted() queues %s%s: the annotation is then not found from what that sub-selector references (and a cascade that follows the index leaves it behind with a dangling target)" % (label, ("nothing for " + ", ".join(miss)) if miss else "", ((" and the unrelated " + ", ".join(extra)) if extra else "")), fn.file, loop.get("l"))
     ctx.floor(r, n, 7, "sub-selector kinds evaluated")
+
+
+
+# ---------------------------------------------------------------------- RANGEREC
+def rangerec_rule(ctx, syn, rid="C01.RANGEREC"):
+    """consecutive annotation selectors of a complex target are stored as one range.  Walking a target
+    (SelectorIter) follows an AnnotationSelector into the target of its annotation when asked to (recurse_annotation):
+    that is how resources(), annotations_in_targets(Max) and the metadata iterators see what lies behind an
+    annotation.  The arm for the range must do the same for each annotation it stands for - sibling agreement of the
+    two arms of SelectorIter::next that yield annotation selectors."""
+    from synq import unparse
+    r = ctx.rule(rid, "in SelectorIter::next the arm for a range of annotation selectors follows each annotation's target under recurse_annotation, like the arm for a single AnnotationSelector")
+    fns = [f for f in syn.fns if f.name == "next" and (f.self_ty or "").startswith("SelectorIter") and f.body is not None]
+    if len(fns) != 1:
+        ctx.anchor_missing(r, "SelectorIter::next")
+        return
+    f = fns[0]
+    ctx.functions_analysed.add(f.qual)
+    arms = {}
+    for nd in walk(f.body):
+        if nd.get("k") == "match":
+            for a in nd["arms"]:
+                names = set(q["path"][-1] for q in walk(a["pat"]) if q.get("k") == "pat" and q.get("path"))
+                for v in ("AnnotationSelector", "RangedAnnotationSelector"):
+                    if v in names and len(names & {"AnnotationSelector", "RangedAnnotationSelector", "Selector"}) >= 1 and v not in arms:
+                        arms[v] = a
+    if set(arms) != {"AnnotationSelector", "RangedAnnotationSelector"}:
+        ctx.anchor_missing(r, "the arms for AnnotationSelector and RangedAnnotationSelector in SelectorIter::next (found %s)" % sorted(arms))
+        return
+
+    def follows(arm):
+        for nd in walk(arm["body"]):
+            if nd.get("k") == "if" and "recurse_annotation" in unparse(nd["cond"]):
+                for x in walk(nd["then"]):
+                    if x.get("k") == "mcall" and x.get("method") == "push" and "subiterstack" in unparse(x["recv"]):
+                        return True
+        return False
+    res = dict((v, follows(a)) for v, a in arms.items())
+    r.hit(f.qual, sample={"arm_follows_annotation_target": res})
+    if not res["AnnotationSelector"]:
+        ctx.report(r, "single", "SelectorIter::next no longer follows an AnnotationSelector into the target of its annotation under recurse_annotation: what lies behind an annotation (resources(), annotations_in_targets(Max)) is not seen", f.file, arms["AnnotationSelector"].get("l"))
+    if res["AnnotationSelector"] and not res["RangedAnnotationSelector"]:
+        ctx.report(r, "range", "SelectorIter::next follows a single AnnotationSelector into its annotation's target but not the annotations of a RangedAnnotationSelector: a complex target over consecutive annotations (stored as a range) answers resources() / annotations_in_targets(Max) / the metadata iterators with nothing, the same target over non-consecutive annotations answers correctly", f.file, arms["RangedAnnotationSelector"].get("l"))
